@@ -30,7 +30,7 @@ from harness import psbt_common as PC
 
 PROPERTY = "C10"
 DRIVERS = ["drv_c10"]
-PROPS_MODULES = ["Buidl.Props.C10", "Buidl.Props.C10Tx", "Buidl.Props.C10Compose"]
+PROPS_MODULES = ["Buidl.Props.C10", "Buidl.Props.C10Tx", "Buidl.Props.C10Compose", "Buidl.Props.C10ComposeEC"]
 ANCHORS = [
     ("buidl/psbt.py", "PSBT.parse"), ("buidl/psbt.py", "PSBTIn.parse"), ("buidl/psbt.py", "PSBTOut.parse"),
     ("buidl/psbt.py", "PSBT.serialize"), ("buidl/psbt.py", "PSBTIn.serialize"), ("buidl/psbt.py", "PSBTOut.serialize"),
